@@ -266,3 +266,54 @@ def zshift_integrand(prog, ctx, fz, R, Z):
     ex = Geo1Ex(ctx, fz.module, {}, prog)
     clo = Closure(fdef, {}, ex, fdef.name)
     return ex.call_closure(clo, [R, Z], {})
+
+
+
+def clip_bound_sites(builder):
+    """numpy.clip(X, lo, hi) calls in the functions the interpolant builder defines.
+
+    The model above treats clip as the identity on the tabulated domain; that is right only
+    if lo/hi are the minimum/maximum of the grid axis that the clipped coordinate runs along
+    (the k-th coordinate parameter of the nested function <-> the k-th axis parameter of the
+    builder, the order in which both are handed to the interpolant).
+    returns [(call node, nested function name, ok, detail)]"""
+    mod = builder.module
+    params = [a.arg for a in builder.node.args.args if a.arg != "self"]
+    bounds = {}
+    counts = {}
+    for s in ast.walk(builder.node):
+        if isinstance(s, ast.Assign) and len(s.targets) == 1 and isinstance(s.targets[0], ast.Name):
+            nm = s.targets[0].id
+            v = s.value
+            if isinstance(v, ast.Call) and len(v.args) == 1 and isinstance(v.args[0], ast.Name):
+                fn = _dotted(v.func) or ""
+                kind = {"min": "min", "max": "max", "numpy.min": "min", "numpy.max": "max", "numpy.amin": "min", "numpy.amax": "max", "np.min": "min", "np.max": "max"}.get(fn)
+                if kind:
+                    bounds[nm] = (kind, v.args[0].id)
+    for fn_node in ast.walk(builder.node):
+        if isinstance(fn_node, (ast.FunctionDef, ast.Lambda)) and fn_node is not builder.node:
+            for s in ast.walk(fn_node):
+                if isinstance(s, (ast.Assign, ast.AugAssign)):
+                    for t in (s.targets if isinstance(s, ast.Assign) else [s.target]):
+                        if isinstance(t, ast.Name) and t.id in bounds:
+                            counts[t.id] = counts.get(t.id, 0) + 1  # shadowed inside a nested function
+    out = []
+    for fn_node in ast.walk(builder.node):
+        if not isinstance(fn_node, ast.FunctionDef) or fn_node is builder.node:
+            continue
+        fparams = [a.arg for a in fn_node.args.args if a.arg != "self"]
+        for c in ast.walk(fn_node):
+            if isinstance(c, ast.Call) and (_dotted(c.func) or "") in ("numpy.clip", "np.clip"):
+                ok, detail = False, ""
+                if len(c.args) == 3 and all(isinstance(a, ast.Name) for a in c.args):
+                    x, lo, hi = [a.id for a in c.args]
+                    if x in fparams and fparams.index(x) < len(params):
+                        axis = params[fparams.index(x)]
+                        ok = bounds.get(lo) == ("min", axis) and bounds.get(hi) == ("max", axis) and not counts.get(lo) and not counts.get(hi)
+                        detail = "clip(%s, %s=%s, %s=%s), axis of %s is %s" % (x, lo, "%s(%s)" % bounds[lo] if lo in bounds else "?", hi, "%s(%s)" % bounds[hi] if hi in bounds else "?", x, axis)
+                    else:
+                        detail = "clipped name %s is not a coordinate parameter" % x
+                else:
+                    detail = "clip arguments not plain names: " + mod.code(c)
+                out.append((c, fn_node.name, ok, detail))
+    return out
